@@ -208,6 +208,11 @@ def rule_brier_formula(ck):
     if any(g == N.nf(s) for s in specs_mean) and not augs:
         o.ok('-2 * mean((P(N>0) - [active])^2)')
         return
+    specs_size = [s_ + ' / %s' % d_ for s_ in specs_sum for d_ in ('%s.size' % ob, 'numpy.size(%s)' % ob)]
+    if any(g == N.nf(s) for s in specs_size) and not augs:
+        o.ok('-2 * sum((P(N>0) - [active])^2) / N')
+        ck.ob('C16-D3.brier.norm', f, plain[0], plain[0]).ok('one division by the number of bins')
+        return
     if not compare_nf(o, got, specs_sum, N, what='Brier sum'):
         return
     # normalisation by every dimension
@@ -222,7 +227,10 @@ def rule_brier_formula(ck):
             tv = lp.target.id if isinstance(lp.target, ast.Name) else None
             if it == N.nf('%s.shape' % ob) and isinstance(a.value, ast.Name) and a.value.id == tv and not guards_of(a, lp) \
                     and not any(isinstance(x, (ast.Break, ast.Continue)) for x in ast.walk(lp)):
-                ok = True
+                why = ('the sum is divided by one dimension after the other: x/a/b and x/(a*b) round differently, so the same bins scored as '
+                       'an (a, b) array (the observation) and as a flat array (every simulated catalog) can differ in the last bit - a '
+                       'simulated catalog identical to the observation then counts as exceeding it (or not) by rounding alone; divide once by '
+                       'the number of bins (observations.size)')
             else:
                 why = 'the loop divides by `%s` over `%s`; it must divide by each dimension of the observation array' % (u(a.value), u(lp.iter))
         elif lp is None:
